@@ -210,11 +210,40 @@ class AppGen:
                 p["dflt"] = ("P", par["name"], tbl, fb, "dense" if dense and r.random() < 0.7 else "sparse")
                 if mode > 0.85:
                     p["deps"] = [par["name"]]            # both keys name the same port
+        if sh.get("longdeps") and len(params) >= 8:
+            # one parameter with a long rDepends list (6..8 entries: the MAC_EACH_n chain of port-sugar.h beyond the
+            # lengths the test-suite uses); entries further back in the list are ports that have parents themselves
+            def lpar(q):
+                s_ = set(q["deps"])
+                if q["dflt"][0] == "P":
+                    s_.add(q["dflt"][1])
+                return s_
+
+            def closure(q):
+                seen_ = set()
+                todo_ = list(lpar(q))
+                while todo_:
+                    y = todo_.pop()
+                    if y in seen_:
+                        continue
+                    seen_.add(y)
+                    todo_.extend(lpar(c_field(y)))
+                return seen_
+            tgt = [q for q in params if not any(q["name"] in closure(o) for o in params)]   # nobody depends on it
+            if tgt:
+                p = r.choice(tgt)
+                others = [q for q in params if q is not p]
+                r.shuffle(others)
+                # ports without parents first, ports with parents last: the tail of the list is what matters
+                others.sort(key=lambda q: len(closure(q)) > 0)
+                k = r.randint(6, min(8, len(others)))
+                chosen = others[-k:]
+                p["deps"] = [d for d in p["deps"] if d not in [q["name"] for q in chosen]] + [q["name"] for q in chosen]
         for p in params:
             c.fields.append(p)
         for i in range(narr):
             ek = r.choice(["I", "I", "F", "T"])
-            n = r.randint(2, 5)
+            n = r.randint(5, 9) if sh.get("bigarr") else r.randint(2, 5)
             f = {"name": names.pop(), "role": "array", "ekind": ek, "n": n, "min": None, "max": None}
             if ek == "I":
                 if r.random() < 0.5:
@@ -813,6 +842,10 @@ SHAPES = [
     (104, dict(minp=2, maxp=4, maxarr=1, minsub=2, maxsub=2, depth=2, pdep=0.7)),
     (105, dict(minp=3, maxp=6, maxarr=2, minsub=1, maxsub=3, depth=1, pdep=0.8)),
     (106, dict(minp=2, maxp=3, maxarr=0, minsub=2, maxsub=3, depth=2, pdep=0.5)),
+    # added for the seeded changes C12-4 / C13-4: arrays long enough for range compression (5..9 elements) and
+    # rDepends lists of 6..8 entries
+    (107, dict(minp=10, maxp=12, maxarr=3, minsub=0, maxsub=0, depth=0, pdep=0.7, allkinds=True, bigarr=True, longdeps=True)),
+    (108, dict(minp=8, maxp=9, maxarr=2, minsub=1, maxsub=2, depth=1, pdep=0.6, bigarr=True, longdeps=True)),
 ]
 
 _POOL = None
